@@ -839,6 +839,8 @@ class CostTr(ImpTr):
                 o = self.unit.ident(obj)
                 cur = "(%s %s)" % (proj, o)
                 letb = lambda v: "let %s := set_%s %s %s in\n" % (o, proj, o, v)
+            if lt == "list[?]" and isinstance(f.value, ast.Name):
+                lt = self.env[f.value.id] = "list[%s]" % xt
             if lt != "list[%s]" % xt:
                 raise Unsupported(".%s(%s) on %s at line %d" % (f.attr, xt, lt, ln))
             pre = self.take()
@@ -854,10 +856,8 @@ class CostTr(ImpTr):
     def bind_name(self, name, v, t, value, ln):
         if name in self.loop_iters:
             raise Unsupported("assignment to the iterated list %s at line %d" % (name, ln))
-        if t == "list[?]":
-            if name not in LOCAL_EMPTY:
-                raise Unsupported("empty list assigned to %s: element type unknown at line %d" % (name, ln))
-            t = LOCAL_EMPTY[name]
+        if t == "list[?]" and name in LOCAL_EMPTY:
+            t = LOCAL_EMPTY[name]              # otherwise the element type is fixed by the first use / the first join
         self.env[name] = t
         if is_list(t):
             if value is not None and self.is_fresh(value):
@@ -906,6 +906,8 @@ class CostTr(ImpTr):
             if is_list(lt):
                 self.own_check(name, ln, "in-place `+=`")
                 v, t = self.expr(value)
+                if lt == "list[?]" and is_list(t):
+                    lt = self.env[name] = t
                 v = self.coerce(v, t, lt, s)
                 pre = self.take()
                 return pre + "let %s := (%s ++ %s)%%list in\n" % (self.unit.ident(name), self.unit.ident(name), v)
@@ -1122,6 +1124,8 @@ class CostTr(ImpTr):
             ts = [st[0].get(n) for st in leaves]
             parts = [self.split_type(t) for t in ts if t is not None]
             bases = set(b for _, _, b in parts)
+            if len(bases) > 1 and "list[?]" in bases and all(is_list(b) for b in bases):
+                bases.discard("list[?]")       # an empty list takes the element type of the other leaves
             if len(bases) != 1 or "none" in bases:
                 self.env.pop(n, None)                # a later use is a free name -> Unsupported
                 continue
